@@ -26,10 +26,35 @@ class Affine(tp.models.Model):
 
 def mk_data_fn(fid):
     p, q, r = FT[fid - 1]
+    if fid == 1:
+        def f(t, x):             # declared in another order than the spaces on purpose; values through the closure
+            return p * x + q * t + r
+        return f
 
-    def f(t, x):             # declared in another order than the spaces on purpose
+    def f(t, x, p=p, q=q, r=r):  # same def for several fids: values bound through DEFAULT arguments (the lambda x, k=k idiom)
         return p * x + q * t + r
     return f
+
+
+SDRAWS = [[[[1, 1], [-2, 3]], [[0, -1], [2, 2]], [[3, 0], [-1, -1]]],
+          [[[2, 0], [-1, 2], [1, 1]], [[0, 3], [-2, -2], [1, -1]]],
+          [[[1, 0], [2, -1]], [[-1, 3], [0, 2]], [[3, 1], [-2, 0]]]]        # = Conditions.SDraws
+
+
+class Cyc(tp.samplers.PointSampler):
+    """a user-defined sampler whose successive draws differ (as a random sampler's do), cyclically through SDRAWS[sid]"""
+
+    def __init__(self, draws):
+        super().__init__(n_points=len(draws[0]))
+        self.draws, self.count = draws, 0
+
+    def __len__(self):
+        return len(self.draws[0])
+
+    def sample_points(self, params=Points.empty(), device="cpu", **kw):
+        d = self.draws[self.count % len(self.draws)]
+        self.count += 1
+        return Points(torch.tensor([[float(a), float(b)] for a, b in d], dtype=torch.float64), X * T)
 
 
 NEEDS = {"u_f": ["u", "f"], "ku_x": ["u", "x", "kappa"], "ux_t": ["u", "x", "t"], "echo": ["u", "x", "t"],
@@ -71,6 +96,9 @@ def run_one(s):
         origs.append(dict(d))
     conds, logs = {}, {}
     ev = []
+    bases = [Cyc(SDRAWS[0]), Cyc(SDRAWS[1]), Cyc(SDRAWS[2])]
+    shared = {1: bases[0].make_static(), 2: bases[1], 3: bases[2].make_static(resample_interval=2)}          # ONE sampler object per id, handed to every condition that names it
+    models = {}
     for op in s["ops"]:
         e = {"a": op["a"], "c": op["c"], "exc": "", "recv": {}, "loss": [0, 1], "nrows": 0}
         if op["a"] == "con":
@@ -79,7 +107,10 @@ def run_one(s):
             log = []
             logs[cid] = log
             ins = X * T if op["morder"] == "xt" else T * X
-            model = Affine(ins, op["model"])
+            if op.get("mid"):
+                model = models.setdefault(op["mid"], Affine(ins, op["model"]))      # one model object shared by conditions
+            else:
+                model = Affine(ins, op["model"])
             res = mk_res(op["res"], op["rev"], log)
             d = dicts[op["dict"] - 1] if op["dict"] else {}
             # the user's dictionary object itself is handed over (shared between conditions that name the same dict)
@@ -97,6 +128,9 @@ def run_one(s):
                         smp = smp.make_static()
                     iv = tp.domains.Interval(X, float(op["lo"]), float(op["hi"]))
                     return tp.conditions.PeriodicCondition(model, iv, res, non_periodic_sampler=smp, data_functions=use, **kw)
+                if op.get("smp"):
+                    cls = tp.conditions.PINNCondition if op["kind"] == "pinn" else tp.conditions.MeanCondition
+                    return cls(model, shared[op["smp"]], res, data_functions=use, **kw)
                 if op["order"] == "xt":
                     pts = Points(torch.tensor([[float(r[0]), float(r[1])] for r in rows], dtype=torch.float64), X * T)
                 else:
@@ -111,6 +145,14 @@ def run_one(s):
                 e["exc"] = r[1] if len(r) > 1 else "hang"
             else:
                 conds[cid] = r[1]
+        elif op["a"] == "mv":      # what Solver.on_train_start does with every condition
+            def mv():
+                solver = tp.solver.Solver(train_conditions=[conds[k] for k in sorted(conds)])
+                solver.on_train_start()
+            r = watched(mv)
+            if r[0] != "ok":
+                e["exc"] = r[1] if len(r) > 1 else "hang"
+                e["msg"] = r[2][:200] if len(r) > 2 else ""
         else:
             cid = op["c"]
             if cid not in conds:
@@ -129,6 +171,7 @@ def run_one(s):
                     if log:
                         e["recv"] = {k: ints(v) if isinstance(v, torch.Tensor) else [int(round(float(v)))] for k, v in log[-1].items()}
         e["dicts"] = [dict_state(d, o) for d, o in zip(dicts, origs)]
+        e["scounts"] = [b.count for b in bases]
         ev.append(e)
     return {"events": ev}
 
